@@ -38,9 +38,10 @@ class JointDegreeCover(JointDegree):
         indxs = [i for i, top in enumerate(zip(*jds)) if not any(top)]
 
         # use the indexes of the zero columns to remove
-        for i in indxs:
+        for i in reversed(indxs):
             for jd in jds:
                 del jd[i]
+        jds = [tuple(jd) for jd in jds]
 
         # convert jds to jdd
         self.convert_jds_to_jdd(jds)
